@@ -15,7 +15,8 @@
  * viewed in the zone, is the civil time with the PIL's fields in the nearest year.  secs_from_civil() is
  * linear in mday/hour/minute by construction, which gives the window lengths from the logged fields.
  *
- * Grid/bounds macros: C14_Y0..C14_Y1 years of L; C14_OFFMAX max |offset|; TZMODE 0 = NULL, 1 = "UTC", 2 = named.
+ * Grid/bounds macros: C14_Y0..C14_Y1 years of L; C14_OFFMAX max |offset|; TZMODE 0 = NULL, 1 = "UTC", 2 = named;
+ * C14_TZ_SYMBOLIC: named zone string symbolic (3 chars) or "NMD"; C14_PILCLS: PIL class split of the window harnesses.
  */
 #include "verif.h"
 #include "c14_time.h"
@@ -34,6 +35,9 @@
 #endif
 #ifndef TZMODE
 #define TZMODE 2
+#endif
+#ifndef C14_TZ_SYMBOLIC
+#define C14_TZ_SYMBOLIC 0   /* 1: the named tz argument is a symbolic string, 0: the fixed name "NMD" */
 #endif
 
 #define DAY INT64_C(86400)
@@ -97,10 +101,15 @@ static void scen_read(struct scen *sc, int lto)
   else if (TZMODE == 0) { sc->Z = M14.off[sc->cell0]; sc->tz = 0; sc->zone = sc->cell0; sc->utc_path = 0; }
   else if (TZMODE == 1) { sc->Z = 0; sc->tz = "UTC"; sc->zone = M14_TZ_UTC; sc->utc_path = 1; }
   else {
+#if C14_TZ_SYMBOLIC
+    /* any string of up to 3 characters (empty, with '=', ...) that is neither "UTC" nor the ambient value */
 #ifdef VERIF_NATIVE
     if (m14_classify(sc->tzbuf) != M14_TZ_NAMED) sc->tzbuf[0] = 'N';
 #endif
     V_ASSUME(m14_classify(sc->tzbuf) == M14_TZ_NAMED);
+#else
+    sc->tzbuf[0] = 'N'; sc->tzbuf[1] = 'M'; sc->tzbuf[2] = 'D';
+#endif
     sc->Z = M14.off[M14_TZ_NAMED]; sc->tz = sc->tzbuf; sc->zone = M14_TZ_NAMED; sc->utc_path = 0;
   }
 }
@@ -435,6 +444,20 @@ V_HARNESS(h_m14_selfcheck)
   t = m14_hint_civil(y, mo, d, h, mi, s);
   day0 = M14.hint_midnight;
   V_ASSERT(t >= day0 && t < day0 + DAY, "m14_secs_within_its_day");
+  V_END();
+}
+
+/* the instant registered by m14_hint_civil is the forward function of its fields (same sum, other association) */
+V_HARNESS(h_m14_hint_consistency)
+{
+  int y, mo, d, h, mi, s; int64_t t;
+  V_INIT();
+  y = in_u16(); mo = in_u8(); d = in_u8(); h = in_u8(); mi = in_u8(); s = in_u8();
+  IN_RANGE(y, M14_YLO, M14_YHI); IN_RANGE(mo, 0, 11); IN_RANGE(d, 1, m14_days_in_month(y, mo));
+  IN_RANGE(h, 0, 23); IN_RANGE(mi, 0, 59); IN_RANGE(s, 0, 59);
+  t = m14_hint_civil(y, mo, d, h, mi, s);
+  V_ASSERT(t == m14_secs_from_civil(y, mo, d, h, mi, s), "m14_hint_is_forward_function");
+  V_ASSERT(M14.hint_midnight == m14_secs_from_civil(y, mo, d, 0, 0, 0), "m14_hint_midnight_is_forward_function");
   V_END();
 }
 
